@@ -27,3 +27,78 @@ def back (t : Tables α) : Nat → Nat → Nat → Nat     -- k l j ↦ state at
   | 0, l, _ => l
   | k+1, l, j => if j = k+1 then l else back t k (mrk t k l) j
 end TV.Viterbi
+
+/-! ## Table-building executable form (what the driver runs)
+
+Mirrors `HMM.estimate` of `tracklib/algo/dynamics.py` as it is written: the columns `TAB_VAL[k]` /
+`TAB_MRK[k]` are built one epoch after the other from the previous column (no recomputation), the
+last column is searched with `numpy.argmin` (first minimum) and the back-pointers are walked from the
+last epoch down to epoch 0, recording `(idk, TAB_VAL[k][idk])` (`hmm_inference`, `hmm_cost`).
+`Lemmas/Viterbi.lean` proves that this form equals the function-style `val`/`mrk`/`back` above. -/
+namespace TV.Viterbi
+variable {α : Type} [LT α] [DecidableLT α]
+
+/-- `Qlog`/`Plog` followed by the negation at the call site (`q = -self.Qlog(…)`, `p = -self.Plog(…)`):
+`-(math.log(v + 1e-300))`, or `-v` when the model was declared with `log=True`. -/
+def costOf [Add α] [Neg α] (logf : α → α) (eps : α) (isLog : Bool) (v : α) : α :=
+  if isLog then -v else -(logf (v + eps))
+
+/-- the scan of `numpy.argmin` after its first element: strict `<`, so the first minimum is kept -/
+def argminFrom (best : α) (bi : Nat) : Nat → List α → Nat
+  | _, [] => bi
+  | i, x :: xs => if x < best then argminFrom x i (i+1) xs else argminFrom best bi (i+1) xs
+
+/-- `numpy.argmin` of a list; `none` = `ValueError` on an empty sequence -/
+def argmin? : List α → Option Nat
+  | [] => none
+  | x :: xs => some (argminFrom x 0 1 xs)
+
+/-- `(TAB_VAL[0], TAB_MRK[0])`; Python stores `-1` as marker, which is never read: `0` here -/
+def firstCol (t : Tables α) : List α × List Nat :=
+  ((List.range (t.n 0)).map (t.obs 0), (List.range (t.n 0)).map (fun _ => 0))
+
+/-- `(TAB_VAL[k+1], TAB_MRK[k+1])` from `prev = TAB_VAL[k]`: for every state `l` of epoch `k+1`
+the loop over `m in range(len(TAB_MRK[k]))` is `scanMin` reading `TAB_VAL[k][m]` from `prev` -/
+def nextCol (t : Tables α) (k : Nat) (prev : List α) : List α × List Nat :=
+  let cells := (List.range (t.n (k+1))).map fun l =>
+    let r := scanMin t.big (fun m => t.add (t.trans k m l) (prev.getD m t.big)) prev.length
+    (t.add r.1 (t.obs (k+1) l), r.2)
+  (cells.map Prod.fst, cells.map Prod.snd)
+
+/-- forward pass: the columns of epochs `k, k-1, …, 0` (latest first) -/
+def forward (t : Tables α) : Nat → List (List α × List Nat)
+  | 0 => [firstCol t]
+  | k+1 =>
+    match forward t k with
+    | [] => []
+    | c :: rest => nextCol t k c.1 :: c :: rest
+
+/-- backward walk from the last epoch down: records `(idk, TAB_VAL[k][idk])` then follows
+`TAB_MRK[k][idk]`; `none` = `IndexError` (only possible when an epoch has no state) -/
+def walk : List (List α × List Nat) → Nat → Option (List (Nat × α))
+  | [], _ => some []
+  | c :: rest, idk =>
+    match c.1[idk]?, c.2[idk]? with
+    | some v, some m => (walk rest m).map (fun r => (idk, v) :: r)
+    | _, _ => none
+
+inductive Res (α : Type) where
+  | ok (r : List (Nat × α))   -- per epoch 0..N-1: (index of the inferred state, recorded hmm_cost)
+  | errIndex                  -- IndexError (no epoch, or an epoch without states)
+  | errValue                  -- ValueError: argmin of an empty last column
+  deriving DecidableEq
+
+/-- `HMM.estimate` on a track of `N` epochs -/
+def decode (t : Tables α) : Nat → Res α
+  | 0 => .errIndex
+  | N+1 =>
+    match forward t N with
+    | [] => .errIndex
+    | c :: rest =>
+      match argmin? c.1 with
+      | none => .errValue
+      | some idk =>
+        match walk (c :: rest) idk with
+        | none => .errIndex
+        | some r => .ok r.reverse
+end TV.Viterbi
